@@ -8,6 +8,7 @@ import random
 import struct
 from typing import Any, Callable, Dict, Iterator, List, Optional, Tuple
 
+import core
 from core import Case, Prop, SelfCheckFailure, exc_category, DOCUMENTED
 from gen import hx, unhx, pool, rbytes
 
@@ -100,11 +101,16 @@ _reg(Kind("tm", lambda b, c: PusTm.unpack(b, c.get("ts_len", 0)), c03._tm_fields
           trailer=lambda t: t.crc16))
 _reg(Kind("s17", lambda b, c: Service17Tm.unpack(b, c.get("ts_len", 0)), lambda s: c03._tm_fields(s.pus_tm),
           lambda s: int(s.pus_tm.packet_len), trailer=lambda s: s.pus_tm.crc16))
-_reg(Kind("s1", lambda b, c: Service1Tm.unpack(b, UnpackParams(c.get("ts_len", 0), c.get("step_bytes", 0),
-                                                              c.get("err_bytes", 0))),
+def _unpack_params(c) -> UnpackParams:
+    """one UnpackParams object per configuration, passed to every decode with that configuration (as programs do)"""
+    v = (c.get("ts_len", 0), c.get("step_bytes", 0), c.get("err_bytes", 0))
+    return core.REUSE.get(["UnpackParams", v], lambda: UnpackParams(*v))
+
+
+_reg(Kind("s1", lambda b, c: Service1Tm.unpack(b, _unpack_params(c)),
           c15._s1_fields, lambda s: int(s.pus_tm.packet_len), trailer=lambda s: s.pus_tm.crc16))
 _reg(Kind("cds", lambda b, c: CdsShortTimestamp.unpack(b), _cds_fields, lambda s: int(s.len_packed)))
-_reg(Kind("req_id", lambda b, c: RequestId.unpack(b), c15._req_fields, lambda r: len(bytes(r.pack()))))
+_reg(Kind("req_id", lambda b, c: RequestId.unpack(b), c15._req_fields, lambda r: len(core.pack_stable(r, "RequestId.pack()"))))
 _reg(Kind("pfe", lambda b, c: PacketFieldEnum.unpack(b, c.get("pfc", 8)), c15._pfe_fields, lambda f: int(f.len())))
 _reg(Kind("cfdp_hdr", lambda b, c: PduHeader.unpack(b), c05._fields, lambda h: int(h.header_len)))
 _reg(Kind("lv", lambda b, c: CfdpLv.unpack(b), c08._lv_fields, lambda l: int(l.packet_len)))
@@ -150,7 +156,9 @@ def op_c09_unit(a):
     raw = unit + unhx(a["suffix"])
     alt = unhx(a["alt"])
     obj = k.decode(raw, cfg)
-    f = k.fields(obj)
+    # (the units decoded by the previous lines of this kind must still show what they showed: decoding is a function
+    # of the octets, the decoded objects share nothing)
+    f = core.ISOLATION.check("C09.unit." + a["kind"], obj, k.fields)
     n = k.length(obj)
     declared = n if k.declared is None else int(k.declared(raw))
     out = {"fields": f, "len": n, "declared": declared, "inside": n <= len(raw),
@@ -308,7 +316,7 @@ def _pdu_eval(a) -> Dict[str, Any]:
             obj = k.decode(buf)
         else:
             raise
-    f = k.fields(obj)
+    f = core.ISOLATION.check("C09.pdu." + a["kind"], obj, k.fields)
     reported = int(f["packet_len"])
     n = declared if declared is not None else len(buf)     # an accepted buffer has the four fixed header octets
     crc = 2 if int(f["crc"]) == 1 else 0
